@@ -44,6 +44,8 @@ class Path:
         self.cursor = 0
         self.solver = z3.Solver()
         self.perm: List[Any] = []
+        self._seen_facts: set = set()
+        self._pending: List[Any] = []
         self.temps: List[Any] = []
         self.obligations: List[Obligation] = []
         self.counters: Dict[str, int] = {}
@@ -55,6 +57,12 @@ class Path:
         self.assumptions_used: List[str] = []
         self.model_terms: List[Tuple[str, Any]] = []  # named input terms for models
         self.reached_return = False
+        import os as _os
+        self.fork_mode = _os.environ.get("PYVC_FORK", "0") == "1"
+        self.is_child = False
+        self.report_fd = -1
+        self.ob_start = 0
+        self.child_results: List[Dict[str, Any]] = []
 
     # -- naming -------------------------------------------------------------------
     def fresh_name(self, hint: str) -> str:
@@ -71,10 +79,17 @@ class Path:
     def add_fact(self, term: Any) -> None:
         """Assume without feasibility check (axiom instance / type invariant)."""
         g = self._guarded(term)
+        k = g.get_id()
+        if k in self._seen_facts:
+            return
+        self._seen_facts.add(k)
         self.perm.append(g)
-        self.solver.add(g)
+        self._pending.append(g)
 
     def _check(self, *extra: Any, timeout_ms: int = BRANCH_TIMEOUT_MS) -> Any:
+        if self._pending:
+            self.solver.add(*self._pending)
+            self._pending = []
         self.solver.set("timeout", timeout_ms)
         t0 = time.time()
         r = self.solver.check(*self.temps, *extra)
@@ -121,15 +136,56 @@ class Path:
                 d, alt = True, False
             else:
                 d, alt = True, True
+        if alt and self.fork_mode:
+            d = self._fork()
+            alt = False
         self.decisions.append((d, alt))
         self.cursor += 1
         self.add_fact(cond if d else z3.Not(cond))
         return d
 
+    def _fork(self) -> bool:
+        """Explore both alternatives without re-executing the common prefix: the child process takes the
+        True side and reports what it (and its own children) found; this process then takes the False side."""
+        import os
+        import pickle
+        r, w = os.pipe()
+        pid = os.fork()
+        if pid == 0:
+            os.close(r)
+            self.is_child = True
+            self.report_fd = w
+            self.ob_start = len(self.obligations)
+            self.child_results = []
+            self.solver_time = 0.0
+            self.n_checks = 0
+            return True
+        os.close(w)
+        chunks = []
+        while True:
+            b = os.read(r, 1 << 20)
+            if not b:
+                break
+            chunks.append(b)
+        os.close(r)
+        os.waitpid(pid, 0)
+        try:
+            self.child_results.append(pickle.loads(b"".join(chunks)))
+        except Exception:
+            self.child_results.append({"errors": ["checker crash: a forked path explorer died without reporting"],
+                                       "obligations": [], "paths": 0, "returned": 0, "notes": [],
+                                       "assumptions": [], "functions": {}, "solver_time": 0.0, "checks": 0})
+        return False
+
     def choose(self) -> bool:
         """Nondeterministic choice, both alternatives explored."""
         if self.cursor < len(self.decisions):
             d, _ = self.decisions[self.cursor]
+            self.cursor += 1
+            return d
+        if self.fork_mode:
+            d = self._fork()
+            self.decisions.append((d, False))
             self.cursor += 1
             return d
         self.decisions.append((True, True))
@@ -178,6 +234,9 @@ class Path:
             ob.status = "proved"
         elif r == z3.sat:
             ob.status = "refuted"
+            import os as _os
+            if _os.environ.get("PYVC_DEBUG") == "2":
+                print("REFUTED", ob.key, "\n  goal:", goal, "\n  last facts:", self.perm[-6:])
             try:
                 m = self.solver.model()
                 ob.model = self.render_model(m)
